@@ -103,7 +103,7 @@ def parse_events(rng, sc, lha, hdr, tier, ev):
         cmd = [lha, w, a]
         if os.geteuid() == 0:
             cmd = ["setpriv", "--reuid=65534", "--regid=65534", "--clear-groups"] + cmd       # ("xw" alone extracts into "/")
-        pr = subprocess.run(cmd, capture_output=True, env=V.run_env(), stdin=subprocess.DEVNULL, timeout=120, cwd=cwd)
+        pr = V.run_bounded(cmd, capture_output=True, env=V.run_env(), stdin=subprocess.DEVNULL, timeout=120, cwd=cwd)
         if pr.returncode < 0 or pr.returncode == 99:
             raise V.HarnessError("lha %r died: %s" % (w, pr.stderr.decode(errors="replace")[-300:]))
         helped = pr.stdout.startswith(b"Lhasa v") and b"usage:" in pr.stdout and pr.returncode == 255
@@ -149,7 +149,7 @@ def glob_events(rng, sc, lha, hdr, tier, ev):
     out = []
     for k, pat in enumerate(pats):
         word = "xn" if k % 2 else "pq2"
-        pr = subprocess.run([lha.encode(), word.encode(), a.encode(), pat], capture_output=True, env=V.run_env(), stdin=subprocess.DEVNULL, timeout=120, cwd=sc)
+        pr = V.run_bounded([lha.encode(), word.encode(), a.encode(), pat], capture_output=True, env=V.run_env(), stdin=subprocess.DEVNULL, timeout=120, cwd=sc)
         if pr.returncode < 0 or pr.returncode == 99:
             raise V.HarnessError("lha %s with pattern %r died: %s" % (word, pat, pr.stderr.decode(errors="replace")[-300:]))
         out.append({"e": "Run", "cmd": list(word.encode()), "filters": [list(pat)], "members": mm if word == "pq2" else [dict(m, data=[]) for m in mm],
@@ -207,7 +207,7 @@ def run(pid, tier, seed, ev, count, hostile_names=False, modes=("t", "x", "e", "
                             pre.add(g.path)
                         except OSError:
                             pass
-            pr = subprocess.run([lha.encode(), word.encode(), a.encode()] + filters, capture_output=True, env=V.run_env(),
+            pr = V.run_bounded([lha.encode(), word.encode(), a.encode()] + filters, capture_output=True, env=V.run_env(),
                                 stdin=subprocess.DEVNULL, timeout=300)
             if pr.returncode < 0 or pr.returncode == 99:
                 raise V.HarnessError("lha %s %s died: %s" % (word, a, pr.stderr.decode(errors="replace")[-300:]))
